@@ -457,13 +457,15 @@ func body(c *runner.Ctx, slow bool) {
 			// somebody outside any computation touches the datum's resource
 			// (AddDependency with a context that has no rerunner)
 			c.Probe("dependency-registered-without-rerunner")
-			reactive.AddDependency(context.Background(), w.cur[slot].res, nil)
+			res := w.cur[slot].res
+			go reactive.AddDependency(context.Background(), res, nil) // (never from the main task: it must not block on the package)
 		case 2:
 			// a straggler of an earlier invocation registers a dependency with
 			// that invocation's context, long after the run returned
 			if rr := w.rrs[c.Choose(nR, "straggler-of")]; rr.lastCtx != nil {
 				c.Probe("dependency-registered-by-a-straggler")
-				reactive.AddDependency(rr.lastCtx, w.cur[slot].res, nil)
+				sctx, res := rr.lastCtx, w.cur[slot].res
+				go reactive.AddDependency(sctx, res, nil)
 			}
 		}
 		if c.Choose(8, "flush") == 1 {
@@ -510,7 +512,7 @@ func body(c *runner.Ctx, slow bool) {
 			continue
 		}
 		c.Probe("foreign-reader-at-quiescence")
-		reactive.AddDependency(context.Background(), in.res, nil)
+		go reactive.AddDependency(context.Background(), in.res, nil)
 		simrt.Sleep(10 * time.Second)
 		if in.cleaned != 0 {
 			c.ViolateFor("C08", "cleaned-by-a-foreign-reader", "resource instance %d (slot %d), in use by the settled rerunner %d, was cleaned up after AddDependency was called on it with a context that has no rerunner", in.id, in.slot, r.j)
